@@ -233,3 +233,7 @@ impl<'a> Deref for CsptpMessage<'a> {
         &self.message
     }
 }
+
+#[cfg(all(test, feature = "pendulum_project_ntpd_rs_verif"))]
+#[path = "../../../verif/harness/statime_csptp/messages.rs"]
+mod verif_messages;
